@@ -23,7 +23,7 @@ CHECKS = {
         "subtree and otherwise touches only strict ancestors (C14_delete_exact); any number of operations on other users' "
         "branches leaves a node unchanged (C14_other_users_unchanged). The model is hand-written and compared with the real Database/GrantManager "
         "after every operation of generated traces (whole-database snapshots) plus an independent structural/frame/"
-        "exact-removal oracle on the real database.",
+        "exact-removal oracle on the real database. Read-only queries (grants, branch_info, get_subordinates, get_session_info, find_token ...) are operations that leave the store unchanged (C14_query_leaves_store, C14_queries_are_frame); an issued id resolves to its own path after ANY history (C14_issued_id_resolves_after_any_history), removal / revocation through an id act on exactly its path (C14_remove_through_id, C14_revoke_through_id); the id framing lv_pack [rnd; key; ""] survives the encrypter's blank padding for every key (C14_sid_resolves_through_encrypter). Database.unpack_branch_key and lv_pack are translated from the source and proved equal to the model's.",
         LEVEL_NOTE_COMMON + "Fernet is idealised as authenticated encryption; grant ids (uuid1) assumed fresh.",
         "DESIGN.md §6 C14"),
 }
@@ -37,7 +37,7 @@ CHECKS["C02"] = (
     "minted from the code (C02_oidc_replay_revokes); no operation ever un-uses or un-revokes a token (C02_monotone). The hand-written "
     "model is compared with the real OIDC and OAuth2 providers on every run: outcome of every operation and the whole session state "
     "(every grant and token field) of exhaustive 2- and 3-way parse/process interleavings and random histories; an independent oracle "
-    "counts exchanges per code and probes derived tokens after replays.",
+    "counts exchanges per code and probes derived tokens after replays. Authorizing again within one browser session (request with the provider's session cookie: same / other registered redirect_uri, narrower / wider scope, other client) is an operation of the model (AuthorizeCookie, transcribed from Authorization.setup_auth): the redirect binding of a code is fixed when it is issued and no later operation changes which redirect_uri redeems it (C02_redirect_bound_at_issue, C02_redirect_never_rebound), single use holds for codes of any authorization (C02_single_use_any_authorization); providers without any usage rule (handler lifetimes) are part of the configuration space.",
     LEVEL_NOTE_COMMON + "Token values are abstracted to minting-order identifiers (byte-level formats: C04); client authentication assumed "
     "to succeed for the authenticating client (C01); real thread pre-emption inside one API call is outside property and model.",
     "DESIGN.md §6 C02")
@@ -65,7 +65,7 @@ CHECKS["C05"] = (
     "the scope in the token response equals the scope of the returned access token (code exchange and refresh) and introspection reports "
     "that token's scope. Model tied to the real OIDC/OAuth2 providers on every run; the oracle recomputes requested ∩ allowed from the "
     "history and compares response / token / introspection / JWT-claim scopes; token exchange and client_credentials are decided by the "
-    "oracle on the real endpoints only (partial: not in the Gallina model).",
+    "oracle on the real endpoints only (partial: not in the Gallina model). Cookie re-authorizations are in the model: tokens minted from a later authorization are bounded by THAT request (C05_cookie_authorization_bounded; C05_no_escalation ranges over them). Scopes.get_allowed_scopes / filter_scopes are translated from the source on every run and proved equal to the model's (C05_get_allowed_scopes_is_source, C05_filter_scopes_is_source).",
     LEVEL_NOTE_COMMON + "Password grant not exercised (needs a password-checking authentication method). Token values abstracted (C04).",
     "DESIGN.md §6 C05")
 CHECKS["C01"] = (
@@ -94,7 +94,7 @@ CHECKS["C11"] = (
     "value is in its set (C11_generic); every verify() override in the table regenerated from /repo/src chains to the parent "
     "(C11_all_classes: deleting a chain call breaks the proof); _add_value stores the declared type or refuses, under a stated guard "
     "(C11_typed_partial/_refuted); the oidc AuthorizationRequest cross-parameter rules as an iff. 23 genuine typed-slot / signed-object "
-    "findings are listed in known_findings.txt and replayed deterministically; everything else must be clean.",
+    "findings are listed in known_findings.txt and replayed deterministically; everything else must be clean. The c_hash and at_hash rules of oidc.AuthorizationResponse are two independent rule lists; an accepted response with an ID Token satisfies both (C11_rules_AuthorizationResponse_hashes, C11_verify_id_token_iff), exercised on the full truth table code x access_token x c_hash x at_hash x 5 algorithms x 4 construction paths with real signed ID Tokens. Embedded signed objects inside encrypted wrappers: C11_embedded_only_signed / C11_embedded_refuted.",
     LEVEL_NOTE_COMMON + "Embedded signed objects and the other classes' rule tables are decided by the oracle on the real code.",
     "DESIGN.md §6 C11")
 CHECKS["C08"] = (
@@ -120,7 +120,7 @@ CHECKS["C09"] = (
     "record (C09_frame_db, C09_frame_client); a pending flow's nonce binding survives every operation of every other flow "
     "(C09_nonce_binding_stable); lifted to all histories (C09_history, C09_history_frame_db, C09_history_frame_map, "
     "C09_history_states_issued). Correspondence: ~590 traces / 7k operations per quick run over 1-3 issuers with recombined "
-    "genuine response parameters, unknown and mutated states.",
+    "genuine response parameters, unknown and mutated states. Hybrid response types (code id_token token, code token, id_token token ...) with three pending flows and the full member-by-member recombination table: an accepted response with a signed ID Token has every member from the flow its state names, and what is stored is that flow's own code and access token (C09_authz_members_hashed, C09_hybrid_members_own).",
     LEVEL_NOTE_COMMON + "Back-channel logout and clear_session are not modelled; HTTP statuses other than 200 Unmodelled.",
     "DESIGN.md §6 C09")
 CHECKS["C12"] = (
@@ -143,7 +143,7 @@ CHECKS["C16"] = (
     "an algorithm permitted for it and verifies under its keys, on all three transports and all histories (C16_authenticated, "
     "C16_registered_alg_enforced, C16_cross_client); object claims override outer ones; a pushed request is redeemed at most once, only via "
     "its own urn and only within the announced lifetime (C16_par_once, C16_par_lifetime, C16_par_own_uri); unforgeability via sig_genuine. "
-    "Correspondence: ~4k traces quick (fault x transport x flavour matrix, alg x registration matrix, PAR words to length 4).",
+    "Correspondence: ~4k traces quick (fault x transport x flavour matrix, alg x registration matrix, PAR words to length 4). Encrypted request objects: WEnc wrapper with open_wrapper mirroring from_jwt's decrypt-then-verify-or-JSON fallback; pushing / presenting a wrapped object equals presenting its content (C16_wrapper_pushed, C16_wrapper_by_value), JSON nobody signed is accepted only where alg none is permitted, never for a client that registered an algorithm (C16_wrapped_unsigned_registered), soundness over wrapped objects (C16_wrapped_authenticated); ~4k wrapped cases (JWE to the provider's RSA / EC key around bare JSON, alg-none, foreign-key, altered, non-permitted, genuine; unopenable / truncated wrappers) on all three transports. ~10.6k traces.",
     LEVEL_NOTE_COMMON + "JWE, jti/exp/nbf of request objects, URI normalisation (C06) and PAR client authentication (C01) not modelled.",
     "DESIGN.md §6 C16")
 
@@ -171,7 +171,7 @@ CHECKS["C19"] = (
     "than 201 leaves cdb, registration tokens and key-jar owners unchanged; client ids are pairwise distinct and new over any history; the "
     "secret/token/id are the provider's draws; the response echoes the stored record; the read endpoint answers only for the token's own "
     "client. Correspondence: 600-cell URI matrix (exhaustive), metadata single faults, random histories with id collisions, all token x "
-    "client pairings.",
+    "client pairings. Restricted provider lists: what is stored, echoed and read back lies within the provider's *_supported lists after any history (C19_stored_within_lists, C19_echoed_within_lists, C19_read_within_lists, C19_history_within_lists), the alg-without-enc default is stored only if listed (C19_default_enc_only_if_listed); leave-one-out / singleton enc lists for all three encryption pairs, restricted signing / response / grant / subject / auth-method lists. random_client_id is translated from the source and proved equal to pick_id (unbounded retry).",
     LEVEL_NOTE_COMMON + "sector_identifier_uri, non-ASCII URIs, jwks internals are Unmodelled (oracle only).",
     "DESIGN.md §6 C19")
 CHECKS["C15"] = (
@@ -179,7 +179,7 @@ CHECKS["C15"] = (
     "Theorems (Props/C15.v, closed): tokens issued for a code whose authorization request stored challenge c imply a verifier that the "
     "RECORDED method maps to c (C15_bound, C15_tokens_iff); missing/wrong verifier refused; essential flag truth table (per-client overrides "
     "global); no downgrade through the token request; RP-produced pairs are accepted for every non-empty verifier and shared method; client and "
-    "provider transform tables agree (over tables regenerated from the source). Correspondence ~7k traces on 9 real provider configurations.",
+    "provider transform tables agree (over tables regenerated from the source). Correspondence ~7k traces on 9 real provider configurations. PKCE over every request transport (front channel, request object by value / by reference, pushed request with plain body or object): the recorded challenge is the one of the protected request, a front-channel pair next to it never becomes the recorded one, the token endpoint accepts a verifier iff it transforms to the protected challenge (C15_transport_protected_challenge_recorded, C15_transport_pushed_front_irrelevant, C15_transport_tokens_iff and nine more); verify_code_challenge is translated from the source on every run (C15_verify_code_challenge_is_source). ~9k traces.",
     LEVEL_NOTE_COMMON + "The hash is an arbitrary function (injective where stated). A configured code_challenge_length of 0 is outside the RP-agree domain (DESIGN.md).",
     "DESIGN.md §6 C15")
 CHECKS["C17"] = (
@@ -231,7 +231,7 @@ CHECKS["C06"] = (
     "decodes back; the form_post page parses back to exactly the action and the issued pairs; query/fragment/logout-state delivery leaves "
     "the target unchanged and the parameters exact for every accepted URI. Correspondence ~12k cases quick: single-fault URI matrix x 16 "
     "client configurations x endpoint types, response types x modes x hostile state values, end-session matrix. One recorded finding "
-    "(empty-path-params-dropped) with guarded theorem + refuted witness.",
+    "(empty-path-params-dropped) with guarded theorem + refuted witness. Completion time: the redirect URI is judged again when the response is built, against the registration in force then (Model/Flight.v complete / get_uri_at): what is delivered by redirect or page goes to a URI verified at that moment, an unverifiable URI has no redirect target whatever the error, a failed completion sends its error by redirect iff the URI verifies (C06_completion_redirect, C06_completion_page, C06_completion_unverified_direct, C06_failed_completion_error, C06_reverify and eight more); registration changes in flight, flows resumed from stored requests (create_session + authz_part2), request parameters named like the provider's own result keys (error, return_uri, ...).",
     LEVEL_NOTE_COMMON + "urllib.parse / html.escape are modelled for the ASCII fragment and validated differentially every run; non-ASCII and exotic IPv6 literals are Unmodelled (counted, ~3%).",
     "DESIGN.md §6 C06")
 
@@ -255,7 +255,7 @@ CHECKS["C20"] = (
     "the real functions with sentinel objects compared with the checker's typing; oracle: deep canonical snapshot of all Message schema "
     "tables, UPPERCASE module constants, endpoint attributes/kwargs, authz/claims/scopes configuration and client records (minus "
     "auth_method) before/after every request on long-lived OIDC and OAuth2 providers and an RP; per-client probe flows compared with a "
-    "fresh provider after every batch.",
+    "fresh provider after every batch. Regenerated alias flows: harness/py2alias.py re-reads 46 request-handling functions on every run and emits their alias IR (one flow per path, 749 paths) into Gen/AliasGen.v; C20_generated_flows_checked (vm_compute) + C20_generated_flows_no_static_write (through the soundness theorem) are re-checked against the current source, C20_generated_translation_complete says nothing was refused, the agreement theorems tie the generated flows to the hand-transcribed ones. Flows also cover verified logout, acr_values requests against two configured authentication methods; the authentication broker and every remaining context attribute are in the snapshot.",
     LEVEL_NOTE_COMMON + "Partial: the flows are hand transcriptions (not regenerated from source); any other in-place write is caught by "
     "the snapshot diff (a check, not a theorem); no noninterference theorem over the session model.",
     "DESIGN.md §6 C20")
